@@ -168,6 +168,26 @@ func (s *Sched) Settle() {
 	<-s.parked
 }
 
+// ResumeExternal announces that the driver is about to do something (receive from a channel, let virtual time
+// pass) that lets task t, which is blocked outside the simulator's view, continue. It runs f and waits
+// for quiescence.
+func (s *Sched) ResumeExternal(t *Task, f func()) {
+	if t != nil && t.state == stRunning {
+		s.current = t
+	}
+	f()
+	s.Settle()
+}
+
+// AsDriver runs f on the driver goroutine in set-up mode (primitives never yield). It is needed while
+// a task is blocked outside the simulator's view (it is then still the "current" task).
+func (s *Sched) AsDriver(f func()) {
+	saved := s.current
+	s.current = nil
+	defer func() { s.current = saved }()
+	f()
+}
+
 func (s *Sched) AllDone() bool {
 	for _, t := range s.tasks {
 		if t.state != stDone {
@@ -199,6 +219,14 @@ func cur() *Task {
 type RWMutex struct {
 	writer  bool
 	readers int
+	owner   string // diagnostics: who holds the write lock
+}
+
+func who() string {
+	if t := cur(); t != nil {
+		return t.Name + "@" + t.Point
+	}
+	return "driver"
 }
 
 func (m *RWMutex) key() string { return fmt.Sprintf("%p", m) }
@@ -207,9 +235,10 @@ func (m *RWMutex) Lock() {
 	t := cur()
 	if t == nil {
 		if m.writer || m.readers > 0 {
-			panic("simsync: Lock would block outside a scheduled run")
+			panic("simsync: Lock would block outside a scheduled run; write lock held by " + m.owner)
 		}
 		m.writer = true
+		m.owner = "driver"
 		return
 	}
 	t.park(stReady, "Lock", "")
@@ -217,6 +246,7 @@ func (m *RWMutex) Lock() {
 		t.park(stBlocked, "Lock(wait)", m.key())
 	}
 	m.writer = true
+	m.owner = t.Name
 }
 
 func (m *RWMutex) Unlock() {
@@ -233,7 +263,7 @@ func (m *RWMutex) RLock() {
 	t := cur()
 	if t == nil {
 		if m.writer {
-			panic("simsync: RLock would block outside a scheduled run")
+			panic("simsync: RLock would block outside a scheduled run; write lock held by " + m.owner)
 		}
 		m.readers++
 		return
